@@ -5,7 +5,9 @@ C13 — Every cache back-end is a faithful key-value map of states.
       is `kvOpsC kvCfgDrop` —, every state, every key string);
 (ii)  refinement: for every history (any length) the outputs of the back-end model equal those of the
       specification, `keys` up to order (`outsEq`): memory, file (any injective digest, any codec with
-      decode ∘ encode = id — XOR, Fernet), SQL (`delete_before_insert`), store-backed (point operations; partial),
+      decode ∘ encode = id — XOR, Fernet), SQL (`delete_before_insert`), store-backed (all eight operations, `keys()` and
+      `clean()` included, for a cache path that does not start with `/`: `storec_refines_keys_partial`; with a leading `/`
+      the statement is false — `storec_refines_statement_false`: `to_path` strips the slash, `keys()`/`clean()` do not),
       and congruence for `+`, the conditional wrappers and the proxy;
 (iii) XOR: involution and byte-wise hiding.
 Models: the code **as fixed by D2, D6a, D8, D9, D9b, D17, D18**.
@@ -15,6 +17,7 @@ import LiquerProofs.Lemmas.CacheCombRef
 import LiquerProofs.Lemmas.CacheFileRef
 import LiquerProofs.Lemmas.CacheSqlRef
 import LiquerProofs.Lemmas.CacheStoreRef
+import LiquerProofs.Lemmas.CacheStoreRef2
 import LiquerProofs.Lemmas.CachePaths
 import LiquerProofs.Lemmas.CacheXor
 import LiquerProofs.Lemmas.CacheWitness
@@ -107,11 +110,69 @@ theorem storec_refines_partial (c : StoreCCfg) (U : Str → Prop) (ok : CodecS c
     outsEq ((storeCOps c specOps).run fs h).2 ((kvOpsC kvCfgStore).run [] h).2 :=
   ((storec_sim c U ok paths).run h fs [] hinit hok).2
 
-/-- the full statement for the store-backed cache: also `keys()` and `clean()` -/
+/-- the full statement for the store-backed cache: also `keys()` and `clean()`.  **False as it stands**
+(`storec_refines_statement_false`): it allows cache paths that start with `/`; proved with that one extra hypothesis
+(`storec_refines_keys_partial`). -/
 def storec_refines_statement : Prop :=
   ∀ (c : StoreCCfg) (U : Str → Prop), CodecS c → PathsOK c U → ∀ (h : List CacheOp),
     HistOK (kvOpsC kvCfgStore) (fun kv op => op.hasData = true ∧ op.typeStable kv = true ∧ ∀ k, op.key? = some k → U k) [] h →
     outsEq ((storeCOps c specOps).run (storeCInit c specOps []) h).2 ((kvOpsC kvCfgStore).run [] h).2
+
+/-- **`StoreCache`** over the reference store, **all eight operations** (`keys()` and `clean()` included), every history from
+the freshly constructed cache, flat and nested scheme, keys whose paths are distinct and not directories of one another —
+the conclusion of `storec_refines_statement` under one extra hypothesis: **the cache path does not start with `/`**
+(the empty path is covered).
+
+Missing region: `c.path = '/' :: r`.  There the statement is false (`storec_refines_statement_false`, `storec_slash_keys`,
+`storec_slash_clean`): `to_path` strips one leading `/` from `f"{self.path}/…"`, so the entries are stored under `r/…`,
+while `keys()` and `clean()` test the store keys against the unstripped `self.path + "/"`; `keys()` is then empty and
+`clean()` removes nothing.  The point operations are unaffected (`storec_refines_partial` has no such hypothesis).
+Directories never disturb the listing: `keys()` skips them, `clean()` removes files first and may leave directories
+behind, which no operation of the cache observes. -/
+theorem storec_refines_keys_partial (c : StoreCCfg) (U : Str → Prop) (ok : CodecS c) (paths : PathsOK c U)
+    (hpath : ∀ r, c.path ≠ '/' :: r) (h : List CacheOp)
+    (hok : HistOK (kvOpsC kvCfgStore) (fun kv op => op.hasData = true ∧ op.typeStable kv = true ∧ ∀ k, op.key? = some k → U k) [] h) :
+    outsEq ((storeCOps c specOps).run (storeCInit c specOps []) h).2 ((kvOpsC kvCfgStore).run [] h).2 :=
+  storec_run2 c U ok paths hpath h hok
+
+/-- the same from any related pair of states (e.g. a store that already holds directories, or a reopened cache) -/
+theorem storec_refines_keys_from (c : StoreCCfg) (U : Str → Prop) (ok : CodecS c) (paths : PathsOK c U)
+    (hpath : ∀ r, c.path ≠ '/' :: r) (fs : FS) (kv : KV) (hinit : RSt2 c U fs kv) (h : List CacheOp)
+    (hok : HistOK (kvOpsC kvCfgStore) (okSt2 U) kv h) :
+    outsEq ((storeCOps c specOps).run fs h).2 ((kvOpsC kvCfgStore).run kv h).2 :=
+  ((storec_sim2 c U ok paths hpath).run h fs kv hinit hok).2
+
+/-! the full statement fails for a cache path with a leading `/` -/
+
+def demoState (q : String) : CState := { metadata := { query := q.toList, status := [], typeId := [] }, data := some [] }
+
+/-- a cache at `/c` with an honest codec -/
+def slashCfg (flat : Bool) : StoreCCfg := { Witness.storeCfg flat with path := "/c".toList }
+
+theorem slashCfg_ok (flat : Bool) : CodecS (slashCfg flat) := ⟨(Witness.storeCfg_ok flat).1, (Witness.storeCfg_ok flat).2⟩
+
+/-- `StoreCache(store, "/c")`: after `store(a)`, `keys()` is empty (the specification lists `a`) -/
+theorem storec_slash_keys :
+    ((storeCOps (slashCfg false) specOps).run (storeCInit (slashCfg false) specOps []) [.store (demoState "a"), .keys]).2 =
+      [.res .true, .keys []] ∧
+    ((kvOpsC kvCfgStore).run [] [.store (demoState "a"), .keys]).2 = [.res .true, .keys ["a".toList]] := by decide
+
+/-- … and `clean()` removes nothing: the entry is still there -/
+theorem storec_slash_clean :
+    ((storeCOps (slashCfg false) specOps).run (storeCInit (slashCfg false) specOps []) [.store (demoState "a"), .clean, .contains "a".toList]).2 =
+      [.res .true, .unit, .bool true] ∧
+    ((kvOpsC kvCfgStore).run [] [.store (demoState "a"), .clean, .contains "a".toList]).2 = [.res .true, .unit, .bool false] := by decide
+
+/-- the negation of `storec_refines_statement` -/
+theorem storec_refines_statement_false : ¬ storec_refines_statement := by
+  intro hs
+  have paths : PathsOK (slashCfg false) (fun k => k = "a".toList) :=
+    ⟨fun a b ha hb _ => ha.trans hb.symm, fun a b ha hb => by
+      rw [ha, hb]; exact StoreC.not_mem_ancestors_of_length _ _ (Nat.le_refl _)⟩
+  have h := hs (slashCfg false) (fun k => k = "a".toList) (slashCfg_ok false) paths [.store (demoState "a"), .keys]
+    ⟨⟨rfl, rfl, fun k hk => (Option.some.inj hk).symm⟩, ⟨rfl, rfl, fun k hk => by cases hk⟩, trivial⟩
+  rw [storec_slash_keys.1, storec_slash_keys.2] at h
+  exact absurd h.2.1.length_eq (by decide)
 
 /-- both path schemes are injective on all key strings -/
 theorem storec_paths_injective (c : StoreCCfg) (c0 : Char) (r : Str) (hp : c.path = c0 :: r) (hc : c0 ≠ '/')
@@ -133,8 +194,6 @@ file of a shorter key into a directory — and (on a store that normalises paths
 def demoNested : StoreCCfg :=
   { path := "c".toList, flat := false, h := id, encM := fun m => m.query, decM := fun s => some { query := s, status := ready, typeId := [] },
     serD := fun _ _ => [], deD := fun _ _ => some (some []) }
-
-def demoState (q : String) : CState := { metadata := { query := q.toList, status := [], typeId := [] }, data := some [] }
 
 example : StoreC.toPath demoNested "a".toList ∈ ancestors (StoreC.toPath demoNested "a/0state_.data/b".toList) := by decide
 
@@ -198,6 +257,20 @@ example (c : StoreCCfg) (U : Str → Prop) : RSt c U [] [] :=
   { fileOK := fun _ _ => rfl, noDir := fun _ _ h => by simp [FS.get] at h, hasData := fun _ _ _ h => by simp [KV.get] at h }
 example : HistOK (kvOpsC kvCfgStore) (okSt (fun _ => True)) [] [.store (demoState "a"), .get "a".toList] :=
   ⟨⟨rfl, rfl, _, rfl, trivial⟩, ⟨rfl, rfl, _, rfl, trivial⟩, trivial⟩
+/-- the hypotheses of `storec_refines_keys_partial` are satisfiable: codec, paths (all keys), cache path `cache`, and a history
+with `keys` and `clean` -/
+example : CodecS (Witness.storeCfg true) ∧ PathsOK (Witness.storeCfg true) (fun _ => True) ∧ (∀ r, (Witness.storeCfg true).path ≠ '/' :: r) ∧
+    HistOK (kvOpsC kvCfgStore) (fun kv op => op.hasData = true ∧ op.typeStable kv = true ∧ ∀ k, op.key? = some k → (fun _ => True) k) [] demoHist :=
+  ⟨Witness.storeCfg_ok true, storec_flat_pathsOK _ rfl 'c' "ache".toList rfl (by decide) (Witness.storeCfg_hinj true) (Witness.storeCfg_noslash true),
+   fun r h => (by cases h),
+   ⟨rfl, rfl, fun _ _ => trivial⟩, ⟨rfl, by decide, fun _ _ => trivial⟩, ⟨rfl, rfl, fun _ _ => trivial⟩, ⟨rfl, rfl, fun _ _ => trivial⟩,
+   ⟨rfl, rfl, fun _ _ => trivial⟩, ⟨rfl, rfl, fun _ _ => trivial⟩, ⟨rfl, rfl, fun _ _ => trivial⟩, ⟨rfl, rfl, fun _ _ => trivial⟩, trivial⟩
+example (c : StoreCCfg) (hpath : ∀ r, c.path ≠ '/' :: r) : RSt2 c (fun _ => True) (storeCInit c specOps []) [] := RSt2_init c _ hpath
+/-- on a concrete cache (flat and nested, path `c` and the empty path) the whole demonstration history, `keys` and `clean`
+included, runs to the outputs of the specification -/
+example : ((storeCOps demoNested specOps).run (storeCInit demoNested specOps []) demoHist).2 = ((kvOpsC kvCfgStore).run [] demoHist).2 := by decide
+example : ((storeCOps { demoNested with path := [], flat := true } specOps).run (storeCInit { demoNested with path := [], flat := true } specOps []) demoHist).2 =
+    ((kvOpsC kvCfgStore).run [] demoHist).2 := by decide
 
 /-! ## (iii) XOR -/
 
@@ -212,5 +285,6 @@ end Liquer.C13
 
 -- OBLIGATIONS: Liquer.C13.kv_store_get Liquer.C13.kv_remove Liquer.C13.kv_clean Liquer.C13.kv_meta_only_no_data Liquer.C13.kv_meta_data Liquer.C13.kv_frame Liquer.C13.kvOps_is_instance
 -- OBLIGATIONS: Liquer.C13.memc_refines Liquer.C13.filec_refines Liquer.C13.sqlc_refines Liquer.C13.storec_refines_partial Liquer.C13.storec_paths_injective Liquer.C13.storec_flat_pathsOK Liquer.C13.storec_nested_confusion Liquer.C13.storec_nested_normalised_not_injective
+-- OBLIGATIONS: Liquer.C13.storec_refines_keys_partial Liquer.C13.storec_refines_keys_from Liquer.C13.storec_slash_keys Liquer.C13.storec_slash_clean Liquer.C13.storec_refines_statement_false
 -- OBLIGATIONS: Liquer.C13.combine_refines Liquer.C13.cond_refines Liquer.C13.proxy_refines Liquer.C13.no_plus_mem_refines Liquer.C13.mem_if_refines Liquer.C13.xor_involutive Liquer.C13.xor_hides
 -- STATEMENT-ONLY: Liquer.C13.storec_refines_statement
